@@ -1,8 +1,200 @@
-(* placeholder while the proofs are being written *)
+(* C12 — Lists are 1-indexed sequences, dictionaries insertion-ordered maps.
+   Only statements, closed by [exact], and their assumptions.
+   Model: model/Collections.v (pkg/value/array.go, hashmap.go, iv.go, iteration order of evalIterateStmt),
+   with insertArrayValue as repaired by fixes/C12-1.patch.  Specification: spec/SeqSpec.v, spec/OMapSpec.v,
+   spec/CollectionsSpec.v.
+   Side conditions: [small] = a list shorter than 2^62 elements (a Go slice); [lop_okb] / [num_ok] = numbers used as
+   list positions have magnitude below 2^52 (where float64 arithmetic on them is exact) or are NaN / Inf / 1e300. *)
 From Coq Require Import List ZArith Bool.
 Import ListNotations.
 From Zn.model Require Import CollectionsTypes Collections.
+From Zn.spec Require Import SeqSpec OMapSpec CollectionsSpec.
+From Zn.proofs Require Import CollectionsProofs.
 Open Scope Z_scope.
-Example C12_pinned_insert_crash :
-  insert_array_value false [VNum (NInt 1); VNum (NInt 2); VNum (NInt 3)] (-10) (VNum (NInt 9)) = None.
+
+(* hm_inv hm = NoDup keyOrder /\ NoDup (keys of the Go map) /\ (k in keyOrder <-> k in the Go map).
+   It holds after NewHashMap over ANY pair list (duplicate keys included) and after every operation of ANY history. *)
+Theorem C12_dict_invariant : forall kvs ops,
+  hm_inv (new_hashmap kvs) /\ Forall (fun s => hm_inv (snd s)) (hm_run ops (new_hashmap kvs)).
+Proof. exact dict_invariant_all. Qed.
+Print Assumptions C12_dict_invariant.
+
+Theorem C12_dict_invariant_step : forall op hm, hm_inv hm -> hm_inv (snd (hm_step op hm)).
+Proof. exact dict_invariant_step. Qed.
+Print Assumptions C12_dict_invariant_step.
+
+(* hmExecDelete's loop, which edits keyOrder while ranging over it: under the invariant it cannot panic and removes
+   exactly the key *)
+Theorem C12_delete_loop : forall k order, NoDup order -> In k order ->
+  key_order_delete k order = Some (remove text_eq_dec k order).
+Proof. exact key_order_delete_spec. Qed.
+Print Assumptions C12_delete_loop.
+
+(* every history, from a dictionary built from any pair list: results and abstract contents equal those of the
+   insertion-ordered association list (overwrite keeps the place, insert appends, remove deletes, re-insert
+   appends: OMapSpec.om_put / om_remove), and no Go panic *)
+Theorem C12_dict_refines_omap : forall kvs ops,
+  abs (new_hashmap kvs) = om_of_pairs text_eq_dec kvs /\
+  map (fun s => (fst s, abs (snd s))) (hm_run ops (new_hashmap kvs)) = omap_run ops (abs (new_hashmap kvs)) /\
+  Forall (fun s => fst s <> Crash) (hm_run ops (new_hashmap kvs)).
+Proof. exact dict_refines_omap_all. Qed.
+Print Assumptions C12_dict_refines_omap.
+
+(* ... and from ANY dictionary satisfying the invariant (including the empty one) *)
+Theorem C12_dict_refines_omap_from_any : forall ops hm, hm_inv hm ->
+  map (fun s => (fst s, abs (snd s))) (hm_run ops hm) = omap_run ops (abs hm) /\
+  Forall (fun s => hm_inv (snd s)) (hm_run ops hm) /\
+  Forall (fun s => fst s <> Crash) (hm_run ops hm).
+Proof. exact dict_refines_omap_from_any. Qed.
+Print Assumptions C12_dict_refines_omap_from_any.
+
+(* every list history: the trace (result, list afterwards) of the model of array.go / iv.go equals the trace of the
+   1-indexed abstract sequence, and no Go panic (index / slice out of range) *)
+Theorem C12_list_refines_seq : forall ops l, forallb lop_okb ops = true -> small_run ops l ->
+  arr_run true ops l = seq_run ops l /\ Forall (fun s => fst s <> Crash) (arr_run true ops l).
+Proof. exact list_refines_seq_all. Qed.
+Print Assumptions C12_list_refines_seq.
+
+(* a read returns the last value written to the key by the history (None = removed / never written: index error) *)
+Theorem C12_read_last_write : forall kvs ops k,
+  gm_get (hm_value (hm_final ops (new_hashmap kvs))) k = last_write k (dget (om_of_pairs text_eq_dec kvs) k) ops /\
+  fst (hm_step (DIndexGet (VStr k)) (hm_final ops (new_hashmap kvs))) =
+    match last_write k (dget (om_of_pairs text_eq_dec kvs) k) ops with Some v => Ok v | None => Err E_KEY_NOT_FOUND end.
+Proof. exact read_last_write_all. Qed.
+Print Assumptions C12_read_last_write.
+
+(* lists: position i in 1..n reads the stored element, a write replaces exactly it and is read back *)
+Theorem C12_read_last_write_list : forall l n i v, small l -> num_ok n = true -> trunc_num n = Some i ->
+  1 <= i <= Z.of_nat (length l) ->
+  exists x, nth_error l (Z.to_nat (i - 1)) = Some x /\
+  arr_step true (LIndexGet (VNum n)) l = (Ok x, l) /\
+  arr_step true (LIndexSet (VNum n) v) l = (Ok VNull, list_set l (Z.to_nat (i - 1)) v) /\
+  fst (arr_step true (LIndexGet (VNum n)) (list_set l (Z.to_nat (i - 1)) v)) = Ok v.
+Proof. exact list_read_last_write. Qed.
+Print Assumptions C12_read_last_write_list.
+Theorem C12_write_frame : forall (l : list val) i j v, i <> j -> nth_error (list_set l i v) j = nth_error l j.
+Proof. exact list_set_other. Qed.
+Print Assumptions C12_write_frame.
+
+Theorem C12_length_dict : forall hm, hm_inv hm ->
+  fst (hm_step (DGetProp DPLength) hm) = Ok (VNum (NInt (Z.of_nat (length (hm_order hm))))) /\
+  length (hm_order hm) = om_size (abs hm).
+Proof. exact dict_length. Qed.
+Print Assumptions C12_length_dict.
+Theorem C12_length_list : forall l, arr_step true (LGetProp PLength) l = (Ok (VNum (NInt (Z.of_nat (length l)))), l).
+Proof. exact list_length. Qed.
+Print Assumptions C12_length_list.
+
+(* 所有索引, 所有值, iteration, the displayed form and the JSON key order are all `map f` of ONE duplicate-free
+   sequence, abs hm (the JSON view is the model's; the code is repaired and checked under C19) *)
+Theorem C12_all_views_same_order : forall hm, hm_inv hm ->
+  fst (hm_step (DGetProp DPKeys) hm) = Ok (VList (map VStr (om_keys (abs hm)))) /\
+  fst (hm_step (DGetProp DPValues) hm) = Ok (VList (om_values (abs hm))) /\
+  fst (hm_step DIterate hm) = Ok (VList (map (fun kv => VList [VStr (fst kv); snd kv]) (abs hm))) /\
+  hm_text hm = Some (val_text (VDict (abs hm))) /\
+  view_json_keys hm = om_keys (abs hm) /\
+  om_wf (abs hm).
+Proof. exact all_views_same_order. Qed.
+Print Assumptions C12_all_views_same_order.
+
+(* reading or writing a list position outside 1..n: index error, list unchanged *)
+Theorem C12_bounds_list : forall l n i v, small l -> num_ok n = true -> trunc_num n = Some i ->
+  ~ (1 <= i <= Z.of_nat (length l)) ->
+  arr_step true (LIndexGet (VNum n)) l = (Err E_INDEX_RANGE, l) /\
+  arr_step true (LIndexSet (VNum n) v) l = (Err E_INDEX_RANGE, l).
+Proof. exact list_bounds. Qed.
+Print Assumptions C12_bounds_list.
+Theorem C12_bounds_list_nonfinite : forall l n v, small l -> trunc_num n = None ->
+  arr_step true (LIndexGet (VNum n)) l = (Err E_INDEX_RANGE, l) /\
+  arr_step true (LIndexSet (VNum n) v) l = (Err E_INDEX_RANGE, l).
+Proof. exact list_bounds_nonfinite. Qed.
+Print Assumptions C12_bounds_list_nonfinite.
+(* reading a missing key: index error, dictionary unchanged; writing a new key appends it; writing an existing
+   key keeps the key order *)
+Theorem C12_bounds_dict : forall hm k v, hm_inv hm ->
+  (gm_get (hm_value hm) k = None ->
+     hm_step (DIndexGet (VStr k)) hm = (Err E_KEY_NOT_FOUND, hm) /\
+     abs (snd (hm_step (DIndexSet (VStr k) v) hm)) = abs hm ++ [(k, v)]) /\
+  (forall w, gm_get (hm_value hm) k = Some w ->
+     hm_step (DIndexGet (VStr k)) hm = (Ok w, hm) /\
+     om_keys (abs (snd (hm_step (DIndexSet (VStr k) v) hm))) = om_keys (abs hm)).
+Proof. exact dict_bounds. Qed.
+Print Assumptions C12_bounds_dict.
+
+(* method laws *)
+Theorem C12_append_then_last : forall l v, small l ->
+  arr_step true (LMethod MAppend [v]) l = (Ok (VList (l ++ [v])), l ++ [v]) /\
+  fst (arr_step true (LGetProp PLast) (l ++ [v])) = Ok v /\
+  length (l ++ [v]) = S (length l).
+Proof. exact law_append_last. Qed.
+Print Assumptions C12_append_then_last.
+Theorem C12_prepend_then_first : forall l v, small l ->
+  arr_step true (LMethod MPrepend [v]) l = (Ok (VList (v :: l)), v :: l) /\
+  fst (arr_step true (LGetProp PFirst) (v :: l)) = Ok v.
+Proof. exact law_prepend_first. Qed.
+Print Assumptions C12_prepend_then_first.
+Theorem C12_shift : forall h t, arr_step true (LMethod MShift []) (h :: t) = (Ok h, t).
+Proof. exact law_shift. Qed.
+Print Assumptions C12_shift.
+Theorem C12_pop : forall t x, arr_step true (LMethod MPop []) (t ++ [x]) = (Ok x, t).
+Proof. exact law_pop. Qed.
+Print Assumptions C12_pop.
+Theorem C12_swap : forall l i j x y, nth_error l i = Some x -> nth_error l j = Some y ->
+  exists l', arr_step true (LMethod MSwap [VNum (NInt (Z.of_nat i + 1)); VNum (NInt (Z.of_nat j + 1))]) l = (Ok (VList l'), l') /\
+    l' = list_set (list_set l i y) j x /\ length l' = length l.
+Proof. exact law_swap. Qed.
+Print Assumptions C12_swap.
+Theorem C12_reverse_twice : forall l, map snd (arr_run true [LAssignReverse; LAssignReverse] l) = [rev l; l].
+Proof. exact law_reverse_twice. Qed.
+Print Assumptions C12_reverse_twice.
+Theorem C12_reverse : forall l, arr_step true (LGetProp PReverse) l = (Ok (VList (rev l)), l).
+Proof. exact law_reverse_getter. Qed.
+Print Assumptions C12_reverse.
+Theorem C12_merge : forall l ls,
+  arr_step true (LMethod MMerge (map VList ls)) l = (Ok (VList (l ++ concat ls)), l ++ concat ls).
+Proof. exact law_merge. Qed.
+Print Assumptions C12_merge.
+Theorem C12_contains : forall l v,
+  arr_step true (LMethod MContains [v]) l = (Ok (VBool (existsb (fun x => val_eqb x v) l)), l) /\
+  (existsb (fun x => val_eqb x v) l = true <-> exists x, In x l /\ val_eqb x v = true).
+Proof. exact law_contains. Qed.
+Print Assumptions C12_contains.
+(* 寻找 identifies the FIRST `为`-equal element (0-based position in the code, not judged) and is -1 exactly when
+   包含 is false *)
+Theorem C12_find : forall l v,
+  exists r, arr_step true (LMethod MFind [v]) l = (Ok (VNum (NInt r)), l) /\
+  ((r = -1 /\ existsb (fun x => val_eqb x v) l = false) \/
+   (exists k x, r = Z.of_nat k /\ nth_error l k = Some x /\ val_eqb x v = true /\
+                forall k' y, (k' < k)%nat -> nth_error l k' = Some y -> val_eqb y v = false)).
+Proof. exact law_find. Qed.
+Print Assumptions C12_find.
+(* `为` is structural equality on values without NaN and without dictionaries (dictionary equality is C01/C11's) *)
+Theorem C12_equality_structural : forall a b, plain a = true -> (val_eqb a b = true <-> a = b).
+Proof. exact val_eqb_structural. Qed.
+Print Assumptions C12_equality_structural.
+
+(* ---------- non-vacuity ---------- *)
+Definition n (z : Z) := VNum (NInt z).
+Definition k1 : text := [30002]. Definition k2 : text := [20057]. Definition k3 : text := [19993].
+(* the pinned insertArrayValue panics on 以A（新增：9、-10） with three elements; the repaired one inserts at the front *)
+Example C12_pinned_insert_crash : arr_step false (LMethod MInsert [n 9; n (-10)]) [n 1; n 2; n 3] = (Crash, [n 1; n 2; n 3]).
+Proof. vm_compute. reflexivity. Qed.
+Example C12_repaired_insert : snd (arr_step true (LMethod MInsert [n 9; n (-10)]) [n 1; n 2; n 3]) = [n 9; n 1; n 2; n 3].
+Proof. vm_compute. reflexivity. Qed.
+(* duplicate key at construction, overwrite keeps place, remove + re-insert appends *)
+Example C12_example_dict :
+  map (fun s => abs (snd s))
+      (hm_run [DIndexSet (VStr k1) (n 7); DMethod DMDelete [VStr k1]; DIndexSet (VStr k1) (n 8); DIndexGet (VStr k3)]
+              (new_hashmap [(k1, n 1); (k2, n 2); (k1, n 3)]))
+  = [[(k1, n 7); (k2, n 2)]; [(k2, n 2)]; [(k2, n 2); (k1, n 8)]; [(k2, n 2); (k1, n 8)]].
+Proof. vm_compute. reflexivity. Qed.
+Example C12_example_missing_key : fst (hm_step (DIndexGet (VStr k3)) (new_hashmap [(k1, n 1)])) = Err E_KEY_NOT_FOUND.
+Proof. vm_compute. reflexivity. Qed.
+(* without the invariant the delete loop does panic: a keyOrder with the key twice, the second time in last place *)
+Example C12_delete_loop_needs_nodup : key_order_delete k1 [k1; k2; k1] = None.
+Proof. vm_compute. reflexivity. Qed.
+Example C12_example_list :
+  map fst (arr_run true [LIndexGet (n 0); LIndexGet (n 4); LIndexGet (VNum (NHalf 1)); LIndexSet (VNum NNaN) (n 0);
+                         LMethod MSwap [n 1; n 3]; LMethod MFind [n 1]] [n 1; n 2; n 3])
+  = [Err E_INDEX_RANGE; Err E_INDEX_RANGE; Ok (n 1); Err E_INDEX_RANGE; Ok (VList [n 3; n 2; n 1]); Ok (n 2)].
 Proof. vm_compute. reflexivity. Qed.
